@@ -90,7 +90,7 @@ Inductive body :=
 | BModify (tgt : option Z) (a : attr) (idx : option Z) (v : Z)
 | BSet (tgt : option Z) (a : attr) (v : Z)
 | BDelete (tgt : option Z) (a : attr) (idx : option Z)
-| BReadOnly                               (* Query, DiscoverVersions, Locate *)
+| BReadOnly (minver : Z * Z)              (* Query, Locate (1.0), DiscoverVersions (1.1): the version decorator *)
 | BUnsupported.                           (* an operation _process_operation does not know *)
 
 (* What a handler does to the working state of the session. *)
@@ -248,7 +248,7 @@ Definition dispatch (h : header) (w : store) (pl : option Z) (b : body) : hres :
   | BModify tgt a idx v => h_modify h w pl tgt a idx v
   | BSet tgt a v => h_set h w pl tgt a v
   | BDelete tgt a idx => h_delete h w pl tgt a idx
-  | BReadOnly => HOk w false None
+  | BReadOnly mv => if ver_ge (h_ver h) mv then HOk w false None else HFail R_NOT_SUPPORTED w
   | BUnsupported => HFail R_NOT_SUPPORTED w
   end.
 
